@@ -131,6 +131,36 @@ def run(res):
     ]
 
 
+def replay_with_seed(pid, path, exe=None):
+    """like sched_common.replay, but with the recorded CTL_SEED: the controller derives the library's
+    own random state (steal victims, myth_yield's coin) from it, so the schedule alone does not
+    determine the run"""
+    lines = open(os.path.join(path, "args.txt")).read().split("\n")
+    args = lines[0].split()
+    prog, args = args[0], args[1:]
+    seed = 1
+    if len(lines) > 1 and lines[1].startswith("seed "):
+        try:
+            seed = int(lines[1].split()[1])
+        except ValueError:
+            seed = 1
+    if exe is None:
+        exe, err = sched_common.build_prog(prog)
+        if err:
+            print(err)
+            return 2
+    r = sched_common.run_once(exe, args, seed, os.path.join(common.BUILD, "runs", pid + "-replay"), "replay",
+                              replay=os.path.join(path, "schedule.sched"))
+    kind, text = sched_common.judge(r)
+    print(r["out"])
+    if kind == "violation":
+        print("  detail: " + text)
+        print("VIOLATION property=%s replay=%s" % (pid, path))
+        return 1
+    print("no violation on replay (%s)" % kind)
+    return 0
+
+
 def replay(path):
     args = open(os.path.join(path, "args.txt")).readline().split()
     if args and args[0] == "once_prog_pthread":
@@ -138,13 +168,5 @@ def replay(path):
         if err:
             print(err)
             return 2
-        r = sched_common.run_once(exe, args[1:], 1, os.path.join(common.BUILD, "runs", "C14-replay"), "replay",
-                                  replay=os.path.join(path, "schedule.sched"))
-        kind, text = sched_common.judge(r)
-        print(r["out"])
-        if kind == "violation":
-            print("VIOLATION property=C14 replay=%s" % path)
-            return 1
-        print("no violation on replay (%s)" % kind)
-        return 0
-    return sched_common.replay("C14", path)
+        return replay_with_seed("C14", path, exe=exe)
+    return replay_with_seed("C14", path)
